@@ -314,6 +314,34 @@ def r20_6(ck, F):
               + ": one stalled consumer blocks every other consumer of the blob", b.loc(rq["poll_bb"]))
 
 
+def r20_7(ck, F):
+    import cancel
+    cancel.rule(ck, F, "R20.7", only=("robj::lazy::", "robj::lazy_blob::"), floor=1, min_fns=2)
+
+
+def r20_8(ck, F):
+    ck.rule("R20.8", "a forwarded blob is relayed by the chunk-streaming forwarder: in the relay task that fw_bin::Sender spawns "
+            "when a fetch request passes through an intermediate endpoint, the data is handed on with bin::Receiver::forward "
+            "(unlimited, chunk by chunk) and never read with a size-limited recv()",
+            "blob forwarded A -> B -> C and larger than the connection's max_data_size (512 KiB by default): the relay's recv() "
+            "fails with ExceedsMaxDataSize, the task ends silently and C gets FetchError::Dropped although the provider is "
+            "alive", floor=1)
+    ser = [b for k, b in F.bodies.items() if k.startswith("<robj::lazy_blob::fw_bin::Sender") and k.endswith("Serialize>::serialize")]
+    if not ser:
+        raise mir.AnchorMissing("Serialize for fw_bin::Sender")
+    tasks = [k for k in F.children.get((ser[0].crate, ser[0].dp), []) if k.kind == "coroutine"]
+    tasks = [k for k in tasks if list(k.calls("rch::bin::sender::Sender::into_inner")) or list(k.calls("rch::bin::receiver::Receiver::into_inner"))]
+    if not tasks:
+        raise mir.AnchorMissing("relay task of Serialize for fw_bin::Sender")
+    k = tasks[0]
+    fwd = [bb for bb, t in k.calls() if (callee(t) or "").endswith("chmux::receiver::Receiver::forward")]
+    recvs = [bb for bb, t in k.calls() if (callee(t) or "") in ("chmux::receiver::Receiver::recv", "chmux::receiver::Receiver::recv_any")]
+    ck.expect(bool(fwd) and not recvs, "fw_bin::Sender::serialize#relay-streams",
+              "relay uses Receiver::forward, no size-limited recv()",
+              f"the relay task of a forwarded blob reads the data with a size-limited receive ({len(recvs)} recv call(s), "
+              f"{len(fwd)} forward call(s)): blobs above max_data_size are dropped on the way", k.loc(recvs[0] if recvs else 0))
+
+
 def run(ck, F):
-    for r in (r20_1, r20_2, r20_3, r20_4, r20_4b, r20_5, r20_5b, r20_6):
+    for r in (r20_1, r20_2, r20_3, r20_4, r20_4b, r20_5, r20_5b, r20_6, r20_7, r20_8):
         ck.run_rule(r)
